@@ -79,6 +79,12 @@ func (d *DebugDialer) Dial(ctx context.Context, urlstr string) (conn net.Conn, b
 
 		onResponse(p[:n])
 
+		if br == nil && err == nil && len(p) > h {
+			// Dialer has not seen any byte after the response head, but the
+			// prefetch reader could already have taken them from the
+			// connection. They must not be lost.
+			br = bufio.NewReader(conn)
+		}
 		if br != nil {
 			// If br is non-nil, then it mean two things. First is that
 			// handshake is OK and server has sent additional bytes – probably
